@@ -173,3 +173,63 @@ func VerifC13_NatsReturns() {
 	verifAssert(left == 0, "no registration is left behind")
 	verifReach("end")
 }
+
+func init() {
+	verifHarnesses["VerifC13_AdapterLifecycleStall"] = VerifC13_AdapterLifecycleStall
+}
+
+type verifStallOpenClose struct {
+	*verifPipe
+	stallOpen, stallClose bool
+	never                 chan struct{}
+	entered               chan struct{}
+}
+
+func (p *verifStallOpenClose) Open() error {
+	if p.stallOpen {
+		p.entered <- struct{}{}
+		<-p.never
+	}
+	return p.verifPipe.Open()
+}
+
+func (p *verifStallOpenClose) Close() error {
+	if p.stallClose {
+		p.entered <- struct{}{}
+		<-p.never
+	}
+	return p.verifPipe.Close()
+}
+
+// (b') a call issued while ANOTHER goroutine is stuck in the transport's Open or Close
+// (the peer stalls the handshake / the shutdown): the call still returns within its
+// own timeout - it must not queue behind the connection-lifecycle lock.
+func VerifC13_AdapterLifecycleStall() {
+	base := newVerifPipe()
+	pipe := &verifStallOpenClose{verifPipe: base, never: make(chan struct{}), entered: make(chan struct{}, 1)}
+	ft := NewAdapterTransport(pipe).(*fAdapterTransport)
+	if verifParam() == 0 {
+		verifAssert(ft.Open() == nil, "open")
+		pipe.stallClose = true
+		go ft.Close()
+		verifReach("stalled-close")
+	} else {
+		pipe.stallOpen = true
+		go ft.Open()
+		verifReach("stalled-open")
+	}
+	<-pipe.entered // the other goroutine is inside the stalled operation
+	c := NewFContext("c")
+	timeout := []time.Duration{time.Millisecond, 100 * time.Millisecond}[verifChoice(2)]
+	c.SetTimeout(timeout)
+	t0 := time.Now()
+	var err error
+	if verifChoice(2) == 0 {
+		_, err = ft.Request(c, []byte{0, 0, 0, 1, 7})
+	} else {
+		err = ft.Oneway(c, []byte{0, 0, 0, 1, 7})
+	}
+	_ = err
+	verifAssert(time.Since(t0) <= timeout, "the call returns no later than its timeout although the transport is stuck opening / closing")
+	verifReach("end")
+}
